@@ -96,3 +96,7 @@ Proof.
   - rewrite A at 1. rewrite <- app_assoc. reflexivity.
   - rewrite app_length, L. cbn [length]. lia.
 Qed.
+
+Lemma iterators_items_located : forall l k a b,
+  (In (IOk k a b) (ref_array_iter l) \/ In (IOk k a b) (ref_object_iter l)) -> located l a b.
+Proof. intros l k a b [H|H]; [exact (array_iterator_items_located l k a b H)|exact (object_iterator_items_located l k a b H)]. Qed.
